@@ -230,9 +230,12 @@ where
     node: Node<'tree, D>,
     env: &mut Cow<MetaVarEnv<'tree, D>>,
   ) -> Option<Node<'tree, D>> {
+    // the negated rule never exports bindings: try it on a copy so that a candidate
+    // rejected because the operand matched leaves nothing behind for the next candidate
+    let mut new_env = Cow::Borrowed(env.as_ref());
     self
       .not
-      .match_node_with_env(node.clone(), env)
+      .match_node_with_env(node.clone(), &mut new_env)
       .xor(Some(node))
   }
 }
